@@ -82,12 +82,19 @@ def same(a, b):
         return False
     if a['k'] == 'ok':
         return a['d'] == b['d']
+    if a['k'] != 'exc':
+        return False
     return a['t'] == b['t']
 
 
 def short(o):
     if o is None:
         return 'None'
+    if o['k'] == 'deadlock':
+        return 'DEADLOCK: the call blocked for ever on a lock the calling ' \
+               'thread already holds (%s)' % o.get('m')
+    if o['k'] == 'int':
+        return 'interrupted'
     if o['k'] == 'ok':
         return 'ok:%s %s' % (o['d'], o['p'][:120])
     return 'exc:%s(%s)' % (o['t'], o['m'][:100])
